@@ -434,3 +434,44 @@ def open_findings() -> set:
             except FileNotFoundError:
                 pass
     return _OPEN
+
+
+# --------------------------------------------------------------------------- forked evaluation
+def fork_eval(fn):
+    """Evaluate fn() in a forked child and return its JSON-able result. The child inherits the
+    parent's memory as it is now (e.g. a registry that has just been built and never been
+    asked anything) and disappears afterwards, so nothing it did survives."""
+    r, w = os.pipe()
+    pid = os.fork()
+    if pid == 0:
+        code = 0
+        try:
+            os.close(r)
+            try:
+                out = ["ok", fn()]
+            except BaseException as e:  # noqa
+                out = ["exc", type(e).__name__, str(e)[:300]]
+            data = json.dumps(out, default=_json_default).encode()
+            mv = memoryview(data)
+            while mv:
+                n = os.write(w, mv)
+                mv = mv[n:]
+        except BaseException:
+            code = 3
+        finally:
+            os._exit(code)
+    os.close(w)
+    chunks = []
+    while True:
+        b = os.read(r, 1 << 16)
+        if not b:
+            break
+        chunks.append(b)
+    os.close(r)
+    _, status = os.waitpid(pid, 0)
+    if status != 0 or not chunks:
+        raise HarnessError(f"forked evaluation died (status {status})")
+    out = json.loads(b"".join(chunks))
+    if out[0] == "exc":
+        raise HarnessError(f"forked evaluation raised {out[1]}: {out[2]}")
+    return out[1]
